@@ -120,6 +120,9 @@ def subblock_extras(rng, lay, start, end, sctl):
         lay.features.add('asm-nowarn')
 
 def mid_block_comment(rng, lay, addr):
+    if rng.random() < 0.3:
+        lay.lines.append('@ %d ignoreua:m' % addr)
+        lay.features.add('ignoreua:m-mid')
     for _ in range(rng.randint(1, 2)):
         _emit(rng, lay, 'N', addr, paragraph(rng))
     lay.features.add('N-mid')
